@@ -246,7 +246,28 @@ def handle (toks : List String) : String :=
     | _, _, _ => "bad-op"
   | "csv" :: _ => "SKIP"
   | "ipcx" :: _ => "SKIP"
-  | "avro" :: _ => "SKIP"
+  | ["avro", _bs, hex, chunks, hdr] =>
+    -- OCF file: the model covers the block region after the header; the chunk boundaries the
+    -- `BlockDecoder` sees are those of the file chunks that lie behind the header
+    match parseHex hex, parseList String.toNat? chunks, hdr.toNat? with
+    | some xs, some sizes, some hdr =>
+      if hdr < 16 ∨ xs.length < hdr then "bad-op" else
+      let sync := (xs.take hdr).drop (hdr - 16)
+      let region := xs.drop hdr
+      let rec trim (pos : Nat) : List Nat → List Nat
+        | [] => []
+        | n :: ns => ((max (pos + n) hdr) - (max pos hdr)) :: trim (pos + n) ns
+      match splitChunks region (trim 0 sizes) with
+      | some cs =>
+        let sh (r : BlkState × List Block) : String :=
+          let bad := r.2.any (fun b => b.sync != sync)
+          match r.1 with
+          | .failed _ => "r=ERR"
+          | _ => if bad then "r=ERR" else s!"rows={(r.2.map (·.count)).sum} r=ok"
+        check (sh (runChunks blkFeed blkInit cs))
+          [("single", sh (blkFeed blkInit region)), ("bytewise", sh (runBytes blkStep blkInit region))]
+      | none => "bad-op"
+    | _, _, _ => "bad-op"
   | _ => "bad-op"
 
 end ArrowModel.C14
